@@ -9,7 +9,7 @@ from .. import smc_common as sc
 
 ID = "C06"
 LEVEL = "exploration"
-BUDGET = {"quick": 1600, "thorough": 32000}
+BUDGET = {"quick": 1600, "thorough": 90000}
 SHARDS = {"quick": 8, "thorough": 16}
 SHRINK = {"quick": True, "thorough": True}
 RULE = (
